@@ -23,7 +23,7 @@ import numpy as np
 
 from .. import core
 from ..core import fbits, unfbits
-from .c05 import build, close, curve_tokens, gen_curve, val
+from .c05 import build, close, curve_tokens, gen_curve, model_loga1, val
 
 USES_TRANSLATOR = True
 ANCHOR_PREFIX = ("sn_", "gh_")
@@ -146,7 +146,7 @@ def ref_capacity(c, S):
     """N(S) of the (bi)linear S-N curve for the effective stress range S, computed without qats (S == 0: no damage)"""
     if S == 0:
         return math.inf
-    m1, la1 = float(c["m1"]), float(c["loga1"])
+    m1, la1 = float(c["m1"]), float(model_loga1(c))
     try:
         if c["m2"] is None:
             return 10 ** (la1 - m1 * math.log10(S))
@@ -169,7 +169,7 @@ def ref_weibull(c, q, h, v0, td, scf, th):
     q, h, v0 = float(q), float(h), float(v0)
     tdv = 3600. * 24 * 365 if td is None else float(td)
     qq = q * float(scf) * ref_tcorr(c, th)
-    m1, la1 = float(c["m1"]), float(c["loga1"])
+    m1, la1 = float(c["m1"]), float(model_loga1(c))
     if c["m2"] is None:
         return float(v0 * tdv * qq ** m1 / 10 ** la1 * gamma(1 + m1 / h))
     m2, ln = float(c["m2"]), math.log10(c["nswitch"])
@@ -305,7 +305,7 @@ def gen_spell(rng):
     sr = [rng.choice([0, rng.randint(1, 30), rng.randint(1, 400), rng.randint(1, 400)]) for _ in range(nb)]
     if bil and nb and rng.random() < 0.6:
         # bins at / next to the transition stress (after scf and thickness correction); exact ties belong to either branch
-        sw = 10 ** ((float(c["loga1"]) - math.log10(c["nswitch"])) / float(c["m1"])) / (float(scf) * ref_tcorr(c, th))
+        sw = 10 ** ((float(model_loga1(c)) - math.log10(c["nswitch"])) / float(c["m1"])) / (float(scf) * ref_tcorr(c, th))
         for _ in range(rng.choice([1, 2])):
             sr[rng.randrange(nb)] = sw * (1 + rng.choice([0.0, 2.0 ** -50, -2.0 ** -50, 2.0 ** -20, -2.0 ** -20, 0.125, -0.125]))
     if nb > 1 and rng.random() < 0.3:
@@ -494,7 +494,7 @@ def eval_wspell(inp):
 def gen_wspell(rng):
     inp = gen_spell(rng)
     c = inp["curve"]
-    sw = 10 ** ((float(c["loga1"]) - math.log10(c["nswitch"])) / float(c["m1"])) if c["m2"] is not None else 50.0
+    sw = 10 ** ((float(model_loga1(c)) - math.log10(c["nswitch"])) / float(c["m1"])) if c["m2"] is not None else 50.0
     whole = rng.random() < 0.5
     if whole:
         q = max(1, int(round(sw * rng.choice([0.1, 0.5, 1, 2, 10]))))
